@@ -182,6 +182,13 @@ theorem align_eq_alignNat (n a : Nat) (ha : 0 < a) : Generated.PyFuns.align n a 
   congr 1
   exact mult_unique a n r _ (by omega) hd hdvd ⟨h1, h2⟩ ⟨by omega, by omega⟩
 
+/-- the `size` setter and the constructor, as the source has them now, both store the size rounded up to the alignment -/
+theorem genSetSize_eq (n a : Nat) (ha : 0 < a) : genSetSize n a = .ok (alignNat n a : Int) := by
+  unfold genSetSize; rw [align_eq_alignNat n a ha]
+
+theorem genCtorSize_eq (n a : Nat) (ha : 0 < a) : genCtorSize n a = .ok (alignNat n a : Int) := by
+  unfold genCtorSize; rw [align_eq_alignNat n a ha]
+
 /-- `__len__` as the source computes it now is the model's `len` -/
 theorem genLen_eq (i : Img) (ha : 0 < i.alignment) :
     genLen i.size (binTruthy i.binary) (rawLen i.binary) i.alignment (kidsOf i.children) = .ok (i.len : Int) := by
